@@ -74,6 +74,15 @@ class CacheFn:
                 return False
         return True
 
+    def unpacked_field(self, e: ast.Name) -> int | None:
+        """`value, expire = entry`: the position of the name in the unpacking of the looked-up entry."""
+        for st in self.fi.own_nodes():
+            if isinstance(st, ast.Assign) and len(st.targets) == 1 and isinstance(st.targets[0], (ast.Tuple, ast.List)) and len(st.targets[0].elts) == 2 and isinstance(unwrap(st.value), ast.Name) and self.is_entry(unwrap(st.value)):
+                for idx, t in enumerate(st.targets[0].elts):
+                    if is_name(t, e.id) and len([1 for _k, _n in self.d.defs(self.fi, e.id)]) == 1:
+                        return idx
+        return None
+
     def entry_field(self, e: ast.AST, _depth: int = 0) -> int | None:
         """0 for entry[0]/entry.value, 1 for entry[1]/entry.expire."""
         e = unwrap(e)
@@ -82,12 +91,9 @@ class CacheFn:
         if isinstance(e, ast.Attribute) and self.is_entry(e.value):
             return {"value": 0, "expire": 1}.get(e.attr)
         if isinstance(e, ast.Name):
-            # `value, expire = entry`
-            for st in self.fi.own_nodes():
-                if isinstance(st, ast.Assign) and len(st.targets) == 1 and isinstance(st.targets[0], (ast.Tuple, ast.List)) and len(st.targets[0].elts) == 2 and isinstance(unwrap(st.value), ast.Name) and self.is_entry(unwrap(st.value)):
-                    for idx, t in enumerate(st.targets[0].elts):
-                        if is_name(t, e.id) and len([1 for _k, _n in self.d.defs(self.fi, e.id)]) == 1:
-                            return idx
+            u = self.unpacked_field(e)
+            if u is not None:
+                return u
         if isinstance(e, ast.Name) and not self.is_entry(e):
             sv = self.d.single_value(e.id)
             if sv is not None:
@@ -132,7 +138,7 @@ class CacheFn:
                     return size
             if dotted(e) == "self._limit" and size is not None:
                 return limit
-            fld = self.entry_field(e) if isinstance(e, (ast.Subscript, ast.Attribute)) or (isinstance(e, ast.Name) and not self.is_direct_entry(e) and len(self.d.defs(self.fi, e.id)) == 1) else None
+            fld = self.entry_field(e) if isinstance(e, (ast.Subscript, ast.Attribute)) else (self.unpacked_field(e) if isinstance(e, ast.Name) else None)
             if fld == 1:
                 return expire
             if fld == 0 and present:
@@ -159,6 +165,72 @@ class CacheFn:
 _ENTRY = object()
 _VALUE = object()
 
+
+
+def _stamp_functions(an: Analysis, ci, init: FunctionInfo, gi: CFG, dinit: Deps, has: bool):
+    """[(function, names bound to the expiration)] that `self._next_expire_time()` denotes when an expiration is / is not
+    configured: a method of the class, or what __init__ stores in the attribute (closures selected by the truthiness of
+    `expiration`, module-level functions, functools.partial(fn, expiration)).  None when it cannot be told."""
+    from ..kinds import Scenario
+
+    prog = an.prog
+    meth = ci.methods.get("_next_expire_time")
+    if meth:
+        return [(meth[0], set())]
+
+    def env(e: ast.AST):
+        if is_name(e, "expiration"):
+            return 10.0 if has else None
+        return NOVALUE
+
+    sc = Scenario(gi, dinit, env)
+    vals = ci.attr_val.get("_next_expire_time", [])
+    if not vals:
+        return None
+    out: list[tuple[FunctionInfo, set[str]]] = []
+
+    def resolve(e: ast.AST | None, depth: int = 4) -> bool:
+        from ..kinds import reduce_ifexp
+
+        e = reduce_ifexp(e, sc.env)
+        if e is None or depth == 0:
+            return False
+        if isinstance(e, ast.IfExp):
+            return False
+        if isinstance(e, ast.Call) and an.callee(init, e) == "functools.partial" and e.args and isinstance(e.args[0], ast.Name):
+            t = prog.functions.get(prog.resolve_global(init.module, e.args[0].id) or "")
+            if t is None:
+                return False
+            params = t.param_names()
+            bound = {p for p, a in zip(params, e.args[1:]) if is_name(unwrap(a), "expiration")} | {k.arg for k in e.keywords if k.arg and is_name(unwrap(k.value), "expiration")}
+            out.append((t, bound))
+            return True
+        if isinstance(e, ast.Name):
+            nested = next((nf for nf in init.nested if nf.name == e.id), None)
+            if nested is not None:
+                # the definition reachable in this situation (same name may be defined in both branches)
+                defs = {id(n.ast): n for n in gi.nodes if n.kind == "def"}
+                cands = [nf for nf in init.nested if nf.name == e.id and (defs.get(id(nf.node)) is None or defs[id(nf.node)].id in sc.reach)]
+                for nf in cands:
+                    out.append((nf, set()))
+                return bool(cands)
+            if prog.is_local(init, e.id):
+                vs = [v for v in sc.values_of(e.id)] or ([dinit.single_value(e.id)] if dinit.single_value(e.id) is not None else [])
+                return bool(vs) and all(resolve(v, depth - 1) for v in vs)
+            t = prog.functions.get(prog.resolve_global(init.module, e.id) or "")
+            if t is not None:
+                out.append((t, set()))
+                return True
+        return False
+
+    # the attribute may be assigned on several paths: those reachable in this situation
+    stores = [n for n in gi.nodes if n.kind == "stmt" and isinstance(n.ast, (ast.Assign, ast.AnnAssign)) and getattr(n.ast, "value", None) is not None and dotted(n.ast.targets[0] if isinstance(n.ast, ast.Assign) else n.ast.target) == "self._next_expire_time" and n.id in sc.reach]
+    if not stores:
+        return None
+    for st in stores:
+        if not resolve(st.ast.value):  # type: ignore[union-attr]
+            return None
+    return out
 
 def cached_ops_elsewhere(an: Analysis):
     """Operations on <cache>._cached other than the allowed ones, anywhere in the package."""
@@ -390,68 +462,63 @@ def check(an: Analysis) -> None:
             ob4.fail(fi, s.pops[0].ast, "eviction can run before the new entry was stored", CFG.show_path(w))
 
     # ------------------------------------------------------------------ C12.5 expiry stamps
-    ob = an.ob("C12.5", "K5+K11", "expiry stamp = monotonic() + expiration when an expiration is configured, None (never expires) otherwise; limit/expiration/function reach the cache object", ["helpers.caching._SyncCache.__init__", "helpers.caching._AsyncCache.__init__"])
+    ob = an.ob("C12.5", "K5+K11 situations", "what `self._next_expire_time()` yields at store time: monotonic() + expiration when an expiration is configured, None (never expires) otherwise - whether it is a closure chosen in __init__, a module-level function bound with partial, or a method reading a stored expiration; limit / function reach the cache object", ["helpers.caching._SyncCache.__init__", "helpers.caching._AsyncCache.__init__"])
+    from ..kinds import Scenario as _ScnE
+
     for cname in ("helpers.caching._SyncCache", "helpers.caching._AsyncCache"):
-        init = prog.fn(f"{cname}.__init__")
-        stamps = [f for f in init.nested]
-        if len(stamps) < 2:
-            raise AnalysisError(f"C12.5: expected two next_expire_time variants in {cname}.__init__")
-        kinds = set()
-        for nf in stamps:
-            dn = Deps(prog, nf)
-            for r in [n for n in nf.own_nodes() if isinstance(n, ast.Return)]:
-                ob.inst(nf, r)
-                if isinstance(r.value, ast.Constant) and r.value.value is None:
-                    kinds.add("none")
-                    continue
-                lf = linear_form(dn, r.value)
-                want = {"call:time.monotonic": 1, "name:expiration": 1}
-                if lf is None or {k: int(v) for k, v in lf.items()} != want:
-                    ob.fail(nf, r, f"expiry stamp is {fmt_linear(lf)}, required +call:time.monotonic +name:expiration")
-                else:
-                    kinds.add("stamp")
-        if kinds != {"none", "stamp"}:
-            ob.fail(init, None, f"expected one stamping and one never-expiring variant, found {sorted(kinds)}")
-        # variant selection: stamping variant iff expiration truthy
-        gi = an.cfg(init)
-        defs = {id(n.ast): n for n in gi.nodes if n.kind == "def"}
-
-        def env(has: bool):
-            def f(e: ast.AST):
-                if isinstance(e, ast.Name) and e.id == "expiration":
-                    return 10.0 if has else None
-                return NOVALUE
-
-            return f
-
-        for has in (True, False):
-            reach = gi.reachable([gi.entry], skip_edge=scenario(gi, env(has)))
-            for nf in stamps:
-                dnode = defs.get(id(nf.node))
-                if dnode is None or dnode.id not in reach:
-                    continue
-                rets = [n for n in nf.own_nodes() if isinstance(n, ast.Return)]
-                is_none = all(isinstance(r.value, ast.Constant) and r.value.value is None for r in rets)
-                if has and is_none:
-                    ob.fail(nf, rets[0], "with an expiration configured entries never expire")
-                if not has and not is_none:
-                    ob.fail(nf, rets[0], "without expiration entries get an expiry stamp")
         ci = prog.cls(cname)
+        init = prog.fn(f"{cname}.__init__")
+        gi = an.cfg(init)
         dinit = Deps(prog, init)
-        stamp_names = {nf.name for nf in stamps}
-        for attr, param in (("_limit", "limit"), ("_function", "function"), ("_next_expire_time", None)):
+        for has in (True, False):
+            variants = _stamp_functions(an, ci, init, gi, dinit, has)
+            label = "with an expiration configured" if has else "without expiration"
+            if variants is None:
+                raise AnalysisError(f"C12.5: cannot tell what {cname}._next_expire_time is {label}")
+            ob.inst(init, None, f"{label}: {[f.short for f, _ in variants]}")
+            if not variants:
+                ob.fail(init, None, f"{label} no expiry-stamp function is installed")
+            for fn, bound in variants:
+                # evaluate the function's returns in this situation
+                gfn = an.cfg(fn)
+                dfn = Deps(prog, fn)
+
+                def denotes_expiration(e: ast.AST, bound=bound, fn=fn) -> bool:
+                    e = unwrap(e)
+                    if isinstance(e, ast.Name) and e.id in bound:
+                        return True
+                    if isinstance(e, ast.Name) and fn.outer is init and e.id == "expiration" and e.id not in fn.param_names() and not any(isinstance(x, ast.Name) and x.id == e.id and isinstance(x.ctx, ast.Store) for x in fn.own_nodes()):
+                        return True  # closure over __init__'s parameter
+                    if isinstance(e, ast.Attribute) and is_name(e.value, "self") and any(is_name(v, "expiration") for v in ci.attr_val.get(e.attr, [])):
+                        return True  # self._expiration stored from the parameter
+                    return False
+
+                def env_fn(e: ast.AST, has=has):
+                    if denotes_expiration(e):
+                        return 10.0 if has else None
+                    return NOVALUE
+
+                scf = _ScnE(gfn, dfn, env_fn)
+                live = [n for n in gfn.nodes if n.kind == "return" and n.id in scf.reach]
+                if not live:
+                    ob.fail(fn, None, f"{label} the stamp function returns nothing")
+                for r in live:
+                    ob.inst(fn, r.ast)
+                    v = r.ast.value  # type: ignore[union-attr]
+                    is_none = v is None or (isinstance(v, ast.Constant) and v.value is None)
+                    if has:
+                        lf = None if is_none else linear_form(dfn, v, atom_of=lambda x: "EXP" if denotes_expiration(x) or (isinstance(x, ast.Name) and (sv_ := dfn.single_value(x.id)) is not None and denotes_expiration(sv_)) else None)
+                        want = {"call:time.monotonic": 1, "EXP": 1}
+                        if is_none:
+                            ob.fail(fn, r.ast, "with an expiration configured entries never expire")
+                        elif lf is None or {k: int(v_) for k, v_ in lf.items()} != want:
+                            ob.fail(fn, r.ast, f"expiry stamp is {fmt_linear(lf)}, required +call:time.monotonic +<expiration>")
+                    elif not is_none:
+                        ob.fail(fn, r.ast, "without expiration entries get an expiry stamp")
+        for attr, param in (("_limit", "limit"), ("_function", "function")):
             vv = ci.attr_val.get(attr, [])
-            ok = len(vv) == 1
-            if ok and param is not None:
-                ok = is_name(vv[0], param)
-            elif ok:
-                v = vv[0]
-                for _hop in range(3):  # `self._next_expire_time = <closure>` possibly through the return value of an inlined factory
-                    if isinstance(v, ast.Name) and v.id not in stamp_names and (sv := dinit.single_value(v.id)) is not None:
-                        v = sv
-                ok = isinstance(v, ast.Name) and v.id in stamp_names
-            if not ok:
-                ob.fail(init, None, f"{cname.rsplit('.', 1)[1]}.{attr} does not hold " + (f"`{param}`" if param else "the expiry-stamp closure selected above"))
+            if not (len(vv) == 1 and is_name(vv[0], param)):
+                ob.fail(init, None, f"{cname.rsplit('.', 1)[1]}.{attr} does not hold `{param}`")
             else:
                 ob.inst(init, vv[0], attr)
     wrap = prog.fn("helpers.caching.cache._wrap")
@@ -485,7 +552,7 @@ def check(an: Analysis) -> None:
             if not live:
                 ob1.fail(get, None, f"{cname.rsplit('.', 1)[1]}.__get__ has no return for access {label}")
             for r in live:
-                v = unwrap(r.ast.value)  # type: ignore[union-attr]
+                v = unwrap(dget.inline(r.ast.value))  # type: ignore[union-attr]
                 if inst is None:
                     if not is_name(v, gp[0]):
                         ob1.fail(get, r.ast, "class-level access to a cached method does not return the cache object itself")
